@@ -1,4 +1,5 @@
-import Fuota.Lemmas.RingAlloc
+import Fuota.Lemmas.RingLifeSteps
+import Fuota.Props.C05
 /-!
 # C12 — boot status and fallback queries follow the update lifecycle
 
@@ -284,6 +285,54 @@ theorem life_refines_partial (s : State) (hinv : LifeInv s) (hone' : AtMostOnePe
     · rintro hn j h' ⟨hu, hcf⟩
       obtain ⟨r, hl⟩ := conf_rank j h' hu hcf
       exact hn j r hl
+
+/-! ## the lifecycle relation is an invariant of the machine -/
+
+/-- **`lifeInv_preserved`**: every transition of the machine (every crash prefix of start / cancel / recovery, both
+    completion marks, copy-done, confirm, reject, reboot; either remediation order; every `N ≥ 4`) preserves the
+    invariant bundle `Inv1` = lengths ∧ `LifeInv` (pointwise: `LifeP`) ∧ at most one pending image ∧ every pending
+    image carries a larger sequence number than every confirmed one ∧ the session in RAM names an in-progress
+    firmware / parity pair whose firmware header is newer than every other slot. `LifeInv` alone is not inductive;
+    this is the inductive strengthening. Assumptions: the ring invariant (itself an invariant: `C05.arc_preserved`)
+    and no sequence wrap-around in this step (`SeqRoom 2`). -/
+theorem lifeInv_preserved (c : Cfg) (hn : 4 ≤ c.n) (s : State) (h : Inv1 c.n s) (hinv : RingInv c.n s.hs)
+    (hroom : SeqRoom 2 s.hs) : ∀ t ∈ succs c s, Inv1 c.n t.2 :=
+  inv1_preserved c hn s h hinv hroom
+
+theorem reachable_inv1 (c : Cfg) (hn : 4 ≤ c.n) {s : State} (h : C05.Reachable c s) : Inv1 c.n s := by
+  induction h with
+  | init => exact inv1_init c.n
+  | step hr hroom hstep ih => exact inv1_preserved c hn _ ih (C05.reachable_ringInv c hn hr) hroom _ hstep
+
+/-- in every reachable state the lifecycle relation holds and at most one image is pending (the machine only
+    completes an update when no other image is pending: the proviso of the property is enforced by `completeSuccs`) -/
+theorem reachable_lifeInv (c : Cfg) (hn : 4 ≤ c.n) {s : State} (h : C05.Reachable c s) :
+    LifeInv s ∧ AtMostOnePending s := by
+  have hi := reachable_inv1 c hn h
+  refine ⟨(lifeInv_iff s).mpr hi.ok.rel, ?_⟩
+  intro i _ j _ hpi hpj
+  exact hi.ok.uniq i j hpi hpj
+
+/-- **`life_refines`**: in every state reachable from the blank ring (every `N ≥ 4`, no sequence wrap-around), the
+    boot-status query answers copy-incomplete for exactly the slot the lifecycle has copy-pending,
+    load-unacknowledged for exactly the acknowledgement-pending one, idle iff nothing is pending; the fallback query
+    answers exactly the most recently confirmed slot, none iff nothing was ever confirmed (or it was erased). -/
+theorem life_refines (c : Cfg) (hn : 4 ≤ c.n) {s : State} (h : C05.Reachable c s) :
+    (∀ i, blStatus s.hs = some (.inl i) ↔ lifeAt s i = some .copyPend) ∧
+    (∀ i, blStatus s.hs = some (.inr i) ↔ lifeAt s i = some .ackPend) ∧
+    (blStatus s.hs = none ↔ ∀ i, lifeAt s i ≠ some .copyPend ∧ lifeAt s i ≠ some .ackPend) ∧
+    (∀ f, fallbackSlot s.hs = some f ↔
+      ∃ r, lifeAt s f = some (.confirmed r) ∧ ∀ j r', lifeAt s j = some (.confirmed r') → r' ≤ r) ∧
+    (fallbackSlot s.hs = none ↔ ∀ j r, lifeAt s j ≠ some (.confirmed r)) := by
+  obtain ⟨h1, h2⟩ := reachable_lifeInv c hn h
+  exact life_refines_partial s h1 h2
+
+/-- a later confirmation carries a larger sequence number, in every reachable state -/
+theorem seq_orders_confirmation_reachable (c : Cfg) (hn : 4 ≤ c.n) {s : State} (h : C05.Reachable c s)
+    {i j r r' : Nat} {hd hd' : Header} (hu : Used s.hs i hd) (hu' : Used s.hs j hd')
+    (hl : lifeAt s i = some (.confirmed r)) (hl' : lifeAt s j = some (.confirmed r')) :
+    (r < r' ↔ hd.seq < hd'.seq) ∧ (r = r' → i = j) :=
+  (reachable_inv1 c hn h).ok.rel.c i hd j hd' r r' hu hu' hl hl'
 
 /-! ## non-vacuity -/
 
